@@ -154,6 +154,18 @@ func lazyReencode(b []byte, t wire.Type, start int) outcome {
 		if err := tbin.Default.Encode(v, w); err != nil {
 			return outcome{err: "encode: " + err.Error()}
 		}
+		// writing a value does not use it up: a second write (a retry, a forward) gives the same
+		// bytes and the value can still be walked
+		w2 := simio.NewWriter(-1)
+		if err := tbin.Default.Encode(v, w2); err != nil {
+			return outcome{err: "second encode of the same value: " + err.Error()}
+		}
+		if !bytes.Equal(w.Buf, w2.Buf) {
+			return outcome{err: fmt.Sprintf("second encode of the same value gives %x", clip(w2.Buf, 64))}
+		}
+		if _, err := refwire.Force(v); err != nil {
+			return outcome{err: "walking the value after it was written: " + err.Error()}
+		}
 		return outcome{ok: true, val: ref.Val{T: ref.TBinary, B: w.Buf}}
 	})
 }
